@@ -227,6 +227,23 @@ package ompt
 //@   callpre getProof: n == caller_n.next && ref(keys) == ref(caller_keys) && off(keys) == off(caller_keys) + len(caller_n.keys) && len(keys) == len(caller_keys) - len(caller_n.keys) && (forall i int :: {caller_keys[i]} 0 <= i && i < len(caller_n.keys) ==> caller_keys[i] == caller_n.keys[i])
 //@   callpre getProof: (caller_n.hashValue != nil ==> len(proofs) == len(old(caller_proofs)) + 1 && proofs[len(old(caller_proofs))] == caller_n.serialized) && (caller_n.hashValue == nil ==> proofs == old(caller_proofs))
 
+// building a proof: the root is hashed first - forced, also when its encoding is short enough to be
+// embedded -, then the walk starts at the root with all nibbles of the key and an empty proof
+//@ func (n node) getLink(forceHash) (l)
+//@   iface
+//@   trusted
+//@   modifies *
+//@ func (m *mpt) GetProof(k) (proofs)
+//@   arith int
+//@   nosafety
+//@   modifies *
+//@   opt no-callee-pre
+//@   opt inline-none
+//@   opt protect m.root
+//@   requires m != nil
+//@   callpre getLink: forceHash && n == m.root
+//@   callpre getProof: n == caller_m.root && m == caller_m && keys == caller_nibs && len(proofs) == 0
+
 // entry points: the walk starts at the root with all nibbles of the key and the whole proof; the
 // root is replaced by what the walk returns
 //@ func (m *mpt) Prove(k, proofs) (obj, err)
